@@ -92,7 +92,7 @@ FUNCS = {'identity': lambda v: v, 'wrap': lambda v: [v], 'tag': lambda v: {'was'
 class PairTableHistory(History):
     name = 'pairtable'
     doc = 'stateful machine on one symmetric PairTable vs dict-over-unordered-pairs model'
-    budget = {'quick': 300, 'thorough': 16000}
+    budget = {'quick': 300, 'thorough': 64000}
     steps = {'quick': 25, 'thorough': 30}
 
     def params_strategy(self, tier):
@@ -307,7 +307,7 @@ class PairTableEnum(Sub):
 class ValueTableHistory(History):
     name = 'valuetable'
     doc = 'stateful machine on one ValueTable vs dict model (set single/list, setUnset, check, iterate)'
-    budget = {'quick': 200, 'thorough': 8000}
+    budget = {'quick': 200, 'thorough': 32000}
     steps = {'quick': 20, 'thorough': 30}
 
     def params_strategy(self, tier):
